@@ -72,6 +72,11 @@ pub struct Interpreter<TStdlib: Stdlib, TStdIn: Input, TStdOut: Printer, TLpt1: 
 
     value_stack: Vec<Variant>,
 
+    /// Holds, for every active subprogram call and for the main module, the
+    /// depths of the value stack and of the var path stack at the start of
+    /// the statement that is being executed
+    statement_depths: Vec<(usize, usize)>,
+
     last_error_address: Option<usize>,
 
     last_error_code: Option<i32>,
@@ -201,6 +206,9 @@ impl<TStdlib: Stdlib, TStdIn: Input, TStdOut: Printer, TLpt1: Printer> Interpret
         while i < instructions.len() && !ctx.halt {
             let instruction = &instructions[i].element;
             let pos = instructions[i].pos();
+            if ctx.nearest_statement_finder.is_statement_address(i) {
+                self.mark_statement_depths();
+            }
             #[cfg(feature = "verif")]
             if self.verif_observer.is_some() {
                 use crate::interpreter::verif::{VmControl, VmEvent, VmHandler};
@@ -230,6 +238,9 @@ impl<TStdlib: Stdlib, TStdIn: Input, TStdOut: Printer, TLpt1: Printer> Interpret
                     }
                 },
                 Err(e) => {
+                    // drop what the failed statement left behind, in case the
+                    // program continues with RESUME or RESUME NEXT
+                    self.restore_statement_depths();
                     #[cfg(feature = "verif")]
                     if self.verif_observer.is_some() {
                         use crate::interpreter::verif::{VmControl, VmDispatch, VmEvent};
@@ -315,6 +326,7 @@ impl<TStdlib: Stdlib, TStdIn: Input, TStdOut: Printer, TLpt1: Printer>
             by_ref_stack: VecDeque::new(),
             function_result: None,
             value_stack: vec![],
+            statement_depths: vec![(0, 0)],
             last_error_address: None,
             last_error_code: None,
             print_state: PrintState::new(),
@@ -513,11 +525,16 @@ impl<TStdlib: Stdlib, TStdIn: Input, TStdOut: Printer, TLpt1: Printer>
             }
             Instruction::PushRet(address) => {
                 self.return_address_stack.push(*address);
+                self.statement_depths
+                    .push((self.value_stack.len(), self.var_path_stack.len()));
                 // the callee might PRINT while a PRINT of the caller is under way
                 self.print_state_stack.push(self.print_state.clone());
             }
             Instruction::PopRet => {
                 let address = self.return_address_stack.pop().unwrap();
+                if self.statement_depths.len() > 1 {
+                    self.statement_depths.pop();
+                }
                 if let Some(print_state) = self.print_state_stack.pop() {
                     self.print_state = print_state;
                 }
@@ -655,6 +672,24 @@ impl<TStdlib: Stdlib, TStdIn: Input, TStdOut: Printer, TLpt1: Printer>
         Ok(())
     }
 
+    /// Remembers the depths of the value stack and of the var path stack at
+    /// the start of a statement.
+    fn mark_statement_depths(&mut self) {
+        let depths = (self.value_stack.len(), self.var_path_stack.len());
+        if let Some(last) = self.statement_depths.last_mut() {
+            *last = depths;
+        }
+    }
+
+    /// Drops the values and paths that a failed statement pushed and did not
+    /// get to pop.
+    fn restore_statement_depths(&mut self) {
+        if let Some((values, paths)) = self.statement_depths.last() {
+            self.value_stack.truncate(*values);
+            self.var_path_stack.truncate(*paths);
+        }
+    }
+
     /// Leaves the context and the stacktrace entry of a built-in sub or
     /// function that failed. The `PopStack` instruction that would normally
     /// do this will not be reached, but the program might continue if an error
@@ -761,6 +796,10 @@ impl NearestStatementFinder {
 
     #[cfg(feature = "verif")]
     pub fn verif_is_statement(&self, address: usize) -> bool {
+        self.statement_addresses.binary_search(&address).is_ok()
+    }
+
+    pub fn is_statement_address(&self, address: usize) -> bool {
         self.statement_addresses.binary_search(&address).is_ok()
     }
 
